@@ -7,7 +7,8 @@ from fractions import Fraction
 from ..evalr import Obj, FuncV
 from ..numeval import CannotEvaluate, evaluate
 from ..spec import GROUP, SCORES, POS, NEG, returns, raises, unmodelled_text, pc_text
-from ..terms import App, Const, Num, Sym, Tup, same, show, sub, add, mul, div, atoms_of, to_poly, cmp0, is_const, const_of
+from ..terms import App, Const, Num, Sym, Tup, same, show, sub, add, mul, div, atoms_of, to_poly, cmp0, is_const, const_of, ite, compare, neg, INF
+from ..simp import mk_app
 
 LEVEL = "other"
 Q = "score_analysis.utils.invert_pl_function"
@@ -347,9 +348,28 @@ def threshold_at_metric(ctx, chk):
                     and x.kwd("dtype") is None
                 if ok:
                     lo, hi = x.args[0], x.args[1]
-                    ok = "min(" in lo.key and "max(" in hi.key and POS.key in lo.key and NEG.key in lo.key and POS.key in hi.key and NEG.key in hi.key
+                    # the grid spans [smallest score, largest score] over the NON-EMPTY classes (emptiness = length 0, not "no truthy element":
+                    # a class of all-zero scores is not empty)
+                    def _end(arr, pos_, fill):
+                        return ite(compare(">", App("len", (arr,)), Const(0)), mk_app("getitem", [arr, Const(pos_)]), fill)
+                    want_lo = mk_app("min", [_end(POS, 0, INF), _end(NEG, 0, INF)])
+                    want_hi = mk_app("max", [_end(POS, -1, neg(INF)), _end(NEG, -1, neg(INF))])
+                    ok = same(lo, want_lo) and same(hi, want_hi)
+                    if not ok:
+                        # another spelling of the same range is not decided; a range whose emptiness tests look at the score VALUES is wrong
+                        conds = [a_.args[0] for e_ in (lo, hi) for a_ in [e_] + list(atoms_of(e_)) if isinstance(a_, App) and a_.fn == "ite" and len(a_.args) == 3]
+                        by_value = [c_ for c_ in conds if any(isinstance(x_, App) and x_.fn not in ("len", "size") and (POS.key in x_.key or NEG.key in x_.key)
+                                                             for x_ in [c_] + list(atoms_of(c_)) if isinstance(x_, App) and x_.fn in ("any", "all", "sum", "getitem", "max", "min", "count_nonzero"))]
+                        if not by_value and "min(" in lo.key and "max(" in hi.key and all(k_ in lo.key and k_ in hi.key for k_ in (POS.key, NEG.key)):
+                            chk.unknown("R17.5", "points=int: the grid range [%s, %s] is not in the recognised form" % (show(lo, 100), show(hi, 100)))
+                            ok = None
+            if ok is None:
+                ok_all = None
+                break
             ok_all = ok_all and ok
-        if ok_all:
+        if ok_all is None:
+            pass
+        elif ok_all:
             chk.hold("R17.5", inst, "invert_pl_function(x=points, y=metric(self, points), t=target) with points = %s" % {"all": "all scores (sorted)", "array": "the supplied points", "int": "k evenly spaced points spanning the scores"}[mode])
         else:
             b = cap[0]
